@@ -218,6 +218,23 @@ fn c09_referral_in_answer_section() -> bool {
     }
 }
 
+/// C03: compression pointers must point strictly before the start of the name being read (RFC 1035 4.1.4); a pointer into the
+/// earlier labels of its own name is not a well-formed message and must be rejected.
+fn c03_pointer_into_own_name() -> bool {
+    let mut m: Vec<u8> = vec![0x12, 0x34, 0x00, 0x00, 0x00, 0x01, 0x00, 0x00, 0x00, 0x00, 0x00, 0x00];
+    // question name at offset 12: label of two octets (0x00 0x00), then a pointer to offset 13 (inside this very name)
+    m.extend_from_slice(&[0x02, 0x00, 0x00, 0xc0, 0x0d]);
+    m.extend_from_slice(&[0x00, 0x01, 0x00, 0x01]);
+    let r = Message::from_octets(&m);
+    println!("input: query whose name is `02 00 00 c0 0d` at offset 12 (pointer to offset 13, inside the name itself)");
+    println!("required: rejected (pointer does not point before the start of the name)");
+    match &r {
+        Ok(msg) => println!("observed: accepted, question name = {}", msg.questions[0].name),
+        Err(e) => println!("observed: Err({e:?})"),
+    }
+    r.is_err()
+}
+
 fn main() {
     let w = std::env::args().nth(1).unwrap_or_default();
     let ok = match w.as_str() {
@@ -228,6 +245,7 @@ fn main() {
         "c02_apex_ns_referral" => c02_apex_ns_referral(),
         "c15_prune_after_reinsert" => c15_prune_after_reinsert(),
         "c09_referral_in_answer_section" => c09_referral_in_answer_section(),
+        "c03_pointer_into_own_name" => c03_pointer_into_own_name(),
         _ => {
             eprintln!("unknown witness `{w}`");
             exit(2)
